@@ -564,7 +564,18 @@ class MeshInit(Contract):
         o = st.self
         d = len(st.region.attrs['_pmin'].elems)
         o.attrs['_region'] = st.region
-        o.attrs['_n'] = Vec([E.fresh('n', 'int', True) for _ in range(d)], 'int')
+        ns = [E.fresh('n', 'int', True) for _ in range(d)]
+        if st.cell is not None and st.n is None and len(st.cell) == d:
+            # cell path: where edges/cell cancels syntactically to an integer-valued term m, n is that term (the contract's
+            # clause 'edges a whole number of cells => n == edges/cell', proved under C01; |edges - n*cell| <= cell/1000 and
+            # edges == m*cell leave no other integer).  Saves a nonlinear derivation at every caller.
+            from pyvc.core import cancel, int_of
+            for j, (e, c) in enumerate(zip(s._edges(st), st.cell)):
+                q_ = cancel(toreal(e), toreal(R(c)))
+                iq = int_of(z3.simplify(q_)) if q_ is not None else None
+                if iq is not None:
+                    ns[j] = Sym(z3.simplify(iq), 'int', True)
+        o.attrs['_n'] = Vec(ns, 'int')
         o.attrs['_bc'] = st.bc.lower()
         o.attrs['_subregions'] = {}
         return None
